@@ -61,12 +61,38 @@ Proof. vm_compute. split; reflexivity. Qed.
 Lemma quirks_none_marshal : forall s, is_marshal s && q_marshal_none_kwargs quirks_none = false.
 Proof. intros. apply andb_false_r. Qed.
 
+(* a serialiser's error is an ordinary exception: Exception and BaseException are in its MRO *)
+Definition c_BaseException : text := Eval compute in t "builtins.BaseException"%string.
+Definition is_exception (c : cinfo) : bool := isa c c_Exception && isa c c_BaseException.
+
+(* the generated `except` of _sendExceptionResponse's fallback is general: it names Exception or
+   BaseException (a bare except is recorded as BaseException) *)
+Lemma gen_fallback_general :
+  mem c_Exception (f_fallback_catch gen_facts) || mem c_BaseException (f_fallback_catch gen_facts) = true.
+Proof. vm_compute. reflexivity. Qed.
+
+Lemma mem_isa_any : forall c b l, mem b l = true -> isa c b = true -> isa_any c l = true.
+Proof.
+  intros c b l Hm Hi. unfold isa_any. apply existsb_exists.
+  unfold mem in Hm. apply existsb_exists in Hm. destruct Hm as [y [Hin He]].
+  apply text_eqb_eq in He. subst y. exists b. split; assumption.
+Qed.
+
+Lemma gen_fallback_catches : forall c, is_exception c = true -> isa_any c (f_fallback_catch gen_facts) = true.
+Proof.
+  intros c H. unfold is_exception in H. apply andb_prop in H. destruct H as [H1 H2].
+  pose proof gen_fallback_general as G. apply orb_prop in G. destruct G as [G|G].
+  - exact (mem_isa_any c _ _ G H1).
+  - exact (mem_isa_any c _ _ G H2).
+Qed.
+
 Section Gen.
   Variable codec : ser -> xval -> option xval.
+  Variable serr : ser -> xval -> cinfo.
   Variable ctor : text -> list xval -> option (list xval).
   Hypothesis codec_plain : forall s v, plain v = true -> codec s v = Some v.
 
-  Definition grun := run quirks_none gen_tables gen_facts codec ctor.
+  Definition grun := run quirks_none gen_tables gen_facts codec serr ctor.
 
   Lemma exc_roundtrip_gen : forall ci, In ci exc_table -> good ci = true ->
     forall s k args attrs tbv, single_kind k = true ->
@@ -79,7 +105,7 @@ Section Gen.
     destruct (good_facts ci Hin Hg) as [Hr [_ [Hrel _]]].
     destruct gen_shape as [Htb _].
     unfold grun. rewrite run_single by (auto using quirks_none_marshal).
-    rewrite (roundtrip_single gen_tables gen_facts codec ctor codec_plain s {| e_cls := ci; e_args := args; e_attrs := attrs |} tbv gen_wf Htb Hr
+    rewrite (roundtrip_single gen_tables gen_facts codec serr ctor codec_plain s {| e_cls := ci; e_args := args; e_attrs := attrs |} tbv gen_wf Htb Hr
                (whitelist_all ci Hin) Hc Ha Hat Hp).
     cbn [e_cls e_args e_attrs]. unfold mk. rewrite Hrel. reflexivity.
   Qed.
@@ -97,7 +123,7 @@ Section Gen.
     destruct (good_facts ci Hin Hg) as [_ [Hb [_ Hs]]].
     destruct gen_shape as [_ [_ [_ [_ Hbtb]]]].
     unfold grun. cbn [run]. rewrite quirks_none_marshal.
-    rewrite (roundtrip_batch gen_tables gen_facts codec ctor codec_plain quirks_none s before {| e_cls := ci; e_args := args; e_attrs := attrs |} tbv gen_wf Hbtb);
+    rewrite (roundtrip_batch gen_tables gen_facts codec serr ctor codec_plain quirks_none s before {| e_cls := ci; e_args := args; e_attrs := attrs |} tbv gen_wf Hbtb);
       cbn [e_cls e_args e_attrs]; auto.
     - apply andb_false_r.
     - apply whitelist_all; assumption.
@@ -107,17 +133,20 @@ Section Gen.
   Lemma exc_fallback_gen : forall ci, (route gen_facts ci = ReplyKeep \/ route gen_facts ci = ReplyClose) ->
     forall s k args attrs tbv, single_kind k = true ->
     codec s (class_to_dict gen_tables (with_tb {| e_cls := ci; e_args := args; e_attrs := attrs |} tbv)) = None ->
+    is_exception (serr s (class_to_dict gen_tables (with_tb {| e_cls := ci; e_args := args; e_attrs := attrs |} tbv))) = true ->
     r_out (grun s k {| e_cls := ci; e_args := args; e_attrs := attrs |} tbv) = OFallback c_PyroError (qname ci) true.
   Proof.
-    intros ci Hr s k args attrs tbv Hk Hn.
+    intros ci Hr s k args attrs tbv Hk Hn He.
     destruct gen_shape as [Htb [Hfb [Hfc [Hft _]]]].
     unfold grun. rewrite run_single by (auto using quirks_none_marshal).
-    rewrite (fallback_single gen_tables gen_facts codec ctor s {| e_cls := ci; e_args := args; e_attrs := attrs |} tbv Hfb Hr).
+    rewrite (fallback_single gen_tables gen_facts codec serr ctor s {| e_cls := ci; e_args := args; e_attrs := attrs |} tbv Hfb Hr).
     - rewrite Hfc, Hft. reflexivity.
     - rewrite Htb. exact Hn.
+    - rewrite Htb. apply gen_fallback_catches. exact He.
   Qed.
 
   Hypothesis codec_opaque : forall s v, plain v = false -> codec s v = None.
+  Hypothesis serr_exception : forall s v, is_exception (serr s v) = true.
 
   Lemma proxy_usable_gen : forall ci, In ci exc_table -> good ci = true ->
     forall s k args attrs tbv, single_kind k = true ->
@@ -128,7 +157,7 @@ Section Gen.
     destruct gen_shape as [Htb [Hfb [Hfc _]]].
     destruct fallback_releases as [R1 R2].
     unfold grun. rewrite run_single by (auto using quirks_none_marshal).
-    apply (conn_single gen_tables gen_facts codec ctor codec_plain codec_opaque s {| e_cls := ci; e_args := args; e_attrs := attrs |} tbv gen_wf Htb Hfb Hr
+    apply (conn_single gen_tables gen_facts codec serr ctor codec_plain codec_opaque (fun s v => gen_fallback_catches _ (serr_exception s v)) s {| e_cls := ci; e_args := args; e_attrs := attrs |} tbv gen_wf Htb Hfb Hr
              (whitelist_all ci Hin) Hrel); [rewrite Hfc; exact R1 | exact R2].
   Qed.
 End Gen.
@@ -140,7 +169,7 @@ Proof. vm_compute. repeat constructor. Qed.
 (* ---------------------------------------------------------------- witnesses of today's deviations
    (handler structure [facts_today], independent of what Gen extracts on a later tree) *)
 Definition tb0 : xval := XStr [84%N; 66%N].
-Definition wrun := run quirks_none gen_tables facts_today std_codec std_ctor.
+Definition wrun := run quirks_none gen_tables facts_today std_codec (std_serr gen_tables) std_ctor.
 Definition cls (qn : text) : cinfo := find_class gen_tables qn.
 Definition simple_exc (qn : text) : exc := {| e_cls := cls qn; e_args := [XStr [120%N]; XInt 3]; e_attrs := [([102%N], XNone)] |}.
 Definition opaque_exc (qn : text) : exc := {| e_cls := cls qn; e_args := [XStr [120%N]]; e_attrs := [([98%N], XOpaque)] |}.
@@ -185,13 +214,13 @@ Proof. destruct s; vm_compute; reflexivity. Qed.
 
 Lemma marshal_none_kwargs : forall sh,
   let Q := {| q_marshal_none_kwargs := true; q_marshal_shallow := sh |} in
-  r_out (run Q gen_tables facts_today std_codec std_ctor Marshal KAttr (simple_exc c_ValueError) tb0) = OLocalErr c_AttributeError /\
-  r_out (run Q gen_tables facts_today std_codec std_ctor Marshal (KBatch []) (simple_exc c_ValueError) tb0) = OLocalErr c_AttributeError.
+  r_out (run Q gen_tables facts_today std_codec (std_serr gen_tables) std_ctor Marshal KAttr (simple_exc c_ValueError) tb0) = OLocalErr c_AttributeError /\
+  r_out (run Q gen_tables facts_today std_codec (std_serr gen_tables) std_ctor Marshal (KBatch []) (simple_exc c_ValueError) tb0) = OLocalErr c_AttributeError.
 Proof. destruct sh; vm_compute; split; reflexivity. Qed.
 
 Lemma marshal_batch_shallow :
   let Q := {| q_marshal_none_kwargs := false; q_marshal_shallow := true |} in
-  r_out (run Q gen_tables facts_today std_codec std_ctor Marshal (KBatch [XInt 100]) (simple_exc c_ValueError) tb0) = OSerErr c_ValueError.
+  r_out (run Q gen_tables facts_today std_codec (std_serr gen_tables) std_ctor Marshal (KBatch [XInt 100]) (simple_exc c_ValueError) tb0) = OSerErr c_ValueError.
 Proof. vm_compute. reflexivity. Qed.
 
 Lemma cls_in : forall qn c, find (fun c => text_eqb (qname c) qn) exc_table = Some c -> In (cls qn) exc_table.
@@ -207,3 +236,20 @@ Proof.
 Qed.
 Lemma value_error_good : good (cls c_ValueError) = true.
 Proof. vm_compute. reflexivity. Qed.
+
+(* why the fallback's `except` has to be general: with it narrowed to the classes serializers usually raise,
+   content whose serialisation raises anything else (here KeyError from a __getstate__) gets no reply *)
+Definition facts_narrow_fallback : facts := {|
+  f_catch := f_catch facts_today; f_noreply := f_noreply facts_today; f_reply_if := f_reply_if facts_today;
+  f_reply_unless := f_reply_unless facts_today; f_reraise := f_reraise facts_today;
+  f_batch_catch := f_batch_catch facts_today; f_batch_tb := true; f_send_sets_tb := true; f_fallback := true;
+  f_fallback_catch := [c_SerializeError; c_TypeError; c_ValueError]; f_fallback_class := c_PyroError;
+  f_fallback_tb := true; f_client_release := f_client_release facts_today |}.
+Definition badobj_exc (qn err : text) : exc :=
+  {| e_cls := cls qn; e_args := [XStr [120%N]]; e_attrs := [([98%N], XBadObj (cls err))] |}.
+Lemma narrow_fallback_loses_reply : forall s,
+  r_out (run quirks_none gen_tables facts_narrow_fallback std_codec (std_serr gen_tables) std_ctor s KPlain
+           (badobj_exc c_ValueError c_KeyError) tb0) = OConnLost /\
+  r_out (run quirks_none gen_tables facts_today std_codec (std_serr gen_tables) std_ctor s KPlain
+           (badobj_exc c_ValueError c_KeyError) tb0) = OFallback c_PyroError c_ValueError true.
+Proof. destruct s; vm_compute; split; reflexivity. Qed.
